@@ -3,13 +3,21 @@ ENGINES = [
      "kind_free_text": "crash-point enumeration over the syscall log (strace) of the real writer: all byte prefixes of the write sequence, recovery and restart executed on the real library"},
     {"name": "gridmc", "path": "mc/checks", "serves_properties": ["C18"],
      "kind_free_text": "exhaustive enumeration of finite option lattices / member lists crossed with small branch-covering data alphabets, each point compared with an oracle independent of REBOUND"},
-    {"name": "histmc", "path": "mc/histmc.py", "serves_properties": ["C05", "C06", "C14", "C17"],
+    {"name": "histmc", "path": "mc/histmc.py", "serves_properties": ["C05", "C06", "C09", "C14", "C17"],
      "kind_free_text": "explicit-state breadth-first exploration of operation histories on the real library object (state = history, canonical digest de-duplication, reference-model oracle on every transition)"},
 ]
 NOTES = ("All checks explore the real implementation rebuilt from /repo's working tree (mc/build.py); no abstract model is used, "
          "so traces_validated_against_impl equals the number of executed transitions. known_findings.json lists repaired defects (fixed:) and recorded ones.")
 NOT_APPLICABLE = {}
 CHECKS = {
+    "C09": {
+        "engine": "histmc", "category": "model_checking",
+        "technique": "exhaustive enumeration of call sequences (bounded steps and interposed operations) over the option lattice of every integrator with a deferred half step, on the real library, with bitwise and rounding-level oracles against pure-steps baselines",
+        "text": "Every token string with 1..4 steps and at most 2 (quick) / 3 (thorough) interposed operations from {synchronize, synchronize twice, energy, orbits, copy-and-continue, save+load-and-continue, archive snapshot} is executed for every valid WHFast "
+                "kernel x corrector x corrector2 x coordinates point (56), 18 SABA types, MERCURIUS switching functions, 18 EOS splittings and WHFast with variational particles / MEGNO / rescaling variations, in safe, unsafe and keep_unsynchronized mode (~280k runs quick). "
+                "Safe and keep_unsynchronized modes must reproduce the pure-steps baseline bit for bit; unsafe mode must agree with safe mode to 1e-12 (1e-10 with the approximate second corrector; EOS: 20x its own truncation error); deferred modes synchronised at the end must agree with safe mode; sync;sync == sync.",
+        "note": "One fixed 3-body system (plus test-particle variants in the thorough tier); tolerances are fixed constants with the observed maxima recorded in the evidence (3e-14 / 1.8e-12). WHFast512 not included.",
+    },
     "C17": {
         "engine": "histmc", "category": "model_checking",
         "technique": "exhaustive enumeration of copy cases (save-point states x copy/pickle), of all interleavings of operations on source and copy up to a depth, and of single-field mutations of every descriptor row, on the real ASan-built library",
